@@ -77,7 +77,6 @@ fn with_big(mut p: Profile, t: Tier) -> Profile {
 fn p01(t: Tier) -> Profile {
     let mut p = Profile::base();
     p.p_never = 12;
-    p.p_storm = 20;
     with_big(p, t)
 }
 fn n01(_c: &Case, r: &RunOut) -> bool {
@@ -388,6 +387,15 @@ pub const COMB_PROPS: &[CombProp] = &[
     CombProp { id: "C19", rule: "wait_until whose deadline answered Pending at least once and that saw >= 1 spurious poll; distinct = distinct decoded case", profile: p19, nontrivial: n19, cases: cases_small, max_len: default_len },
     CombProp { id: "C20", rule: ">= 1 never-completing child and >= 1 other child that needed a wake-up (>= 2 polls) to finish; distinct = distinct decoded case", profile: p20, nontrivial: n20, cases: cases_std, max_len: big_len },
 ];
+
+/// number of storm cases (wakers invoked concurrently from helper threads)
+/// per std configuration
+pub fn storm_cases(t: Tier) -> u64 {
+    match t {
+        Tier::Quick => 100_000,
+        Tier::Thorough => 3_000_000,
+    }
+}
 
 pub fn comb_prop(id: &str) -> Option<&'static CombProp> {
     COMB_PROPS.iter().find(|p| p.id == id)
